@@ -49,7 +49,7 @@ C02_FRAME_KINDS = [k for k in F.ALL_KINDS if k not in F.TZ_KINDS]
 def case_strategy(draw, tier):
     frame = draw(F.frame_strategy(kinds=C02_FRAME_KINDS, max_cols=3,
                                   allow_big=False))
-    cons = draw(GC.constraint_set(frame))
+    cons = draw(GC.respell_dates(draw(GC.constraint_set(frame))))
     epsilon = draw(st.sampled_from([None, 0, 0.01, 0.5]))
     reals = [c for c in frame['cols'] if c['kind'] == 'float64'
              and any(v is not None for v in c['cells'])]
@@ -79,6 +79,24 @@ def case_strategy(draw, tier):
             target)
         c['cells'] = cells
         cons['fields'][c['name']] = {'type': 'real', which: b}
+    flags = [c for c in frame['cols'] if c['kind'] == 'obool']
+    if flags and draw(st.integers(0, 2)) == 0:
+        # flags held as the numbers 0 and 1 in an object column: not
+        # booleans, whatever they compare equal to
+        c = draw(st.sampled_from(flags))
+        c['kind'] = 'onum'
+        c['cells'] = [None if v is None else int(v) for v in c['cells']]
+        if draw(st.integers(0, 3)) == 0 and c['cells']:
+            c['cells'][-1] = 2
+        fc = {'type': draw(st.sampled_from(['bool', ['bool', 'int'],
+                                            ['bool', 'string'], 'string',
+                                            'bool', ['date', 'bool']]))}
+        nnull = sum(1 for v in c['cells'] if v is None)
+        if draw(st.booleans()):
+            fc['max_nulls'] = draw(st.sampled_from([nnull, 0, nnull + 1]))
+        if draw(st.booleans()):
+            fc['no_duplicates'] = True
+        cons['fields'][c['name']] = fc
     return {
         'frame': frame,
         'constraints': cons,
@@ -105,6 +123,9 @@ def valid_constraints(cons, frame):
             atype = R.actual_type(col['kind'], F.py_values(col))
         for (k, v) in fc.items():
             if k not in KINDS:
+                return False
+            if (col is not None and col['kind'] == 'onum'
+                    and k not in ('type', 'max_nulls', 'no_duplicates')):
                 return False
             if v is None:
                 if col is None:
